@@ -661,6 +661,10 @@ fn gen_c09(rng: &mut Rng, tier: Tier, run: u64) -> (Case, Outcome) {
 fn fork_outcome(kind: ForkKind, cfg: &Cfg, ops: &[Op], cont: &[Op], mangle: ExportMangle) -> Outcome {
     let (cfg_a, cfg_b, head_a, head_b): (Cfg, Cfg, Vec<Op>, Vec<Op>) = match kind {
         ForkKind::Crash => {
+            // "... before reconnecting with the session present": the continuation starts with that handshake
+            if !(matches!(cont.first(), Some(Op::Connect { clean: false })) && matches!(cont.get(1), Some(Op::Connack { rc: 0, .. }))) {
+                return Outcome::default();
+            }
             let mut ha = ops.to_vec();
             ha.push(Op::Forget);
             (cfg.clone(), cfg.clone(), ha, ops.to_vec())
@@ -719,6 +723,10 @@ fn gen_c16(rng: &mut Rng, tier: Tier, run: u64) -> (Case, Outcome) {
         let mut op = solo::gen_op(&s, rng, &prof);
         if let Op::Connect { .. } = op {
             op = Op::Connect { clean: i == 0 && rng.chance(1, 3) };
+        }
+        // the comparison needs the protocol model on both branches: no adversarial input here
+        if matches!(op, Op::PeerAfterClose { .. } | Op::PeerRaw { .. }) {
+            continue;
         }
         hist.push(op.clone());
         s.exec(&op);
